@@ -31,6 +31,12 @@ theorem breadth_first_loop_nest_is_the_network {α : Type} (o : Ops α) (T : Nat
     (ha : a.length = 2 ^ d) : nttBF o T d a = nttRecO o T d 1 a :=
   nttBF_eq_nttRecO o T d a ha
 
+/-- the same for the inverse transform: merging stages, innermost first, pair i of the stage with h parents using
+    `psi_inv_rev[h + i]` and the butterfly `(u + v, (u − v)·s)` — equal to the depth-first inverse network, any operations -/
+theorem breadth_first_inverse_loop_nest_is_the_network {α : Type} (o : Ops α) (TI : Nat → α) (d : Nat) (a : List α)
+    (ha : a.length = 2 ^ d) : inttBF o TI d a = inttRecO o TI d 1 a :=
+  inttBF_eq_inttRecO o TI d a ha
+
 /-- … in particular for the executable Complex64 transform -/
 theorem float_fft_is_the_breadth_first_loop_nest (d : Nat) (a : List C) (ha : a.length = 2 ^ d) :
     fft a = nttBF cops FftFlt.T d a := by
